@@ -703,6 +703,10 @@ func c11Pure(c *Ctx, rv c11Recv, count bool) {
 				pv.Elem().Set(reflect.ValueOf(x))
 				continue
 			}
+			// ... nor the answer handed out by the other call (round 14: two results alive at once, one altered)
+			if t2b := resultText(res2); t2b != t2 {
+				c.Violation("returned-containers-share-memory:"+cl.Method, fmt.Sprintf("altering the value returned by one call of %s changed the value returned by another call: %q became %q", desc, t2, t2b), c11Case{rv.Name, cl.Method, cl.Args}, len(desc))
+			}
 			var res3 []reflect.Value
 			if noPanic(func() { res3 = pv.MethodByName(cl.Method).Call(cl.args) }) == "" {
 				if t3 := resultText(res3); t3 != t2 {
